@@ -1,4 +1,5 @@
 import Pdq.Model.Solver
+import Pdq.Model.Interp
 import Pdq.Drv.Gauss
 /-! driver ops for `Pdq.Model.Solver` -/
 namespace Pdq.Drv
@@ -45,6 +46,18 @@ def opsSolver : List (String × Handler) := [
     let S := (c.marg pred.u).cov
     let W := invGJ S
     let mh := if S.invOk W then showRat (Solver.mleTerm s tr (fun _ => c) st Gt W) else "-1"
+    pure (showSolState new ++ " " ++ mh)),
+  ("sv_init_update", do
+    -- n k modeU c st -> updated state (the initial-constraint update of solver.init), then maha of 0 if S regular else -1
+    let n ← pNat; let k ← pNat; let modeU ← pNat
+    let cA ← pMat k n; let cb ← pVec k; let cQ ← pMat k k
+    let st ← pSolState n; pEnd
+    let c : Cond k n Q := { A := cA, b := cb, Q := cQ }
+    let Gu ← (findGain c st.u modeU : Except String _)
+    let new := st.update (c.bayesZero st.u Gu)
+    let S := (c.marg st.u).cov
+    let W := invGJ S
+    let mh := if S.invOk W then showRat (c.whitenedSq st.u W) else "-1"
     pure (showSolState new ++ " " ++ mh)),
   ("sv_dyn_sq", do
     -- n k tr1 c st -> squared whitened residual of the mean-only prediction
@@ -93,6 +106,34 @@ def opsSolver : List (String × Handler) := [
     match sts.getLast? with
     | none => throw "no states"
     | some last => pure (" ".intercalate ((solveFixedGridSmoothed s scale sts last).map showGauss))),
+  ("sv_interpolate", do
+    -- strategy n p0 p1 tr0t trt1 -> interpolated, stepFrom, interpFrom
+    let s ← pStrategy; let n ← pNat
+    let p0 ← pSolState n; let p1 ← pSolState n
+    let tr0t ← pPCond n n; let trt1 ← pPCond n n; pEnd
+    let G0 ← (transGain s tr0t p0 0 : Except String _)
+    let mid : SolState n Q := match s with
+      | .filter => s.predict tr0t p0 G0
+      | .fixedPoint => { u := (Strategy.fixedPoint.predict tr0t p0 G0).u, bw := PCond.identity n }
+      | .fixedInterval => Strategy.fixedInterval.predict tr0t p0 G0
+    let G1 ← (transGain s trt1 mid 0 : Except String _)
+    let o := s.interpolate p0 p1 tr0t trt1 G0 G1
+    pure (showSolState o.interpolated ++ " " ++ showSolState o.stepFrom ++ " " ++ showSolState o.interpFrom)),
+  ("sv_interpolate_at_t1", do
+    let s ← pStrategy; let n ← pNat
+    let p1 ← pSolState n; pEnd
+    let o := s.interpolateAtT1 p1
+    pure (showSolState o.interpolated ++ " " ++ showSolState o.stepFrom ++ " " ++ showSolState o.interpFrom)),
+  ("sv_offgrid_fi", do
+    -- n filt0 smooth1 tr0t trt1 -> marginal at t
+    let n ← pNat
+    let f0 ← pGauss n; let s1 ← pGauss n
+    let tr0t ← pPCond n n; let trt1 ← pPCond n n; pEnd
+    let post := SolState.init f0
+    let G0 ← (findGain tr0t.core (tr0t.inner f0) 0 : Except String _)
+    let at_t := Strategy.fixedInterval.predict tr0t post G0
+    let G1 ← (findGain trt1.core (trt1.inner at_t.u) 0 : Except String _)
+    pure (showGauss (offgridFixedInterval f0 s1 tr0t trt1 G0 G1))),
   ("sv_finalize", do
     -- n scale count post1 bw_1 … bw_count (last first) -> count+1 marginals (terminal first)
     let n ← pNat; let scale ← pRat; let cnt ← pNat
